@@ -474,14 +474,20 @@ class Parser:
         node.ctx = context
         return node
 
+    def number_value(self, number: TokenInfo) -> Any:
+        try:
+            return ast.literal_eval(number.string)
+        except SyntaxError as e:  # e.g. more digits than the int conversion limit: report it where the literal is
+            self.raise_syntax_error_known_location(e.msg, number)
+
     def ensure_real(self, number: TokenInfo) -> float | int:
-        value = ast.literal_eval(number.string)
+        value = self.number_value(number)
         if not isinstance(value, float | int):
             self.raise_syntax_error_known_location("real number required in complex literal", number)
         return value
 
     def ensure_imaginary(self, number: TokenInfo) -> complex:
-        value = ast.literal_eval(number.string)
+        value = self.number_value(number)
         if not isinstance(value, complex):
             self.raise_syntax_error_known_location("imaginary number required in complex literal", number)
         return value
